@@ -1,6 +1,7 @@
 import DaskModel.DriverLib
 import DaskModel.Model.NormalForm
 import DaskModel.Model.TaskNode
+import DaskModel.Model.Repack
 open Dask
 open Dask.NF
 open Dask.TaskNode
@@ -149,8 +150,84 @@ def hNodeEval : Handler := handler fun args =>
     pure (.str (pyRepr (canonVal (eval valSem look n))))
   | _ => none
 
+/-! ### C14 / C13: unpack_collections / repack, operand order -/
+
+open Dask.Repack in
+/-- `(coll n) (leaf n) (list t…) (tuple t…) (set t…) (dict (k v)…) (odict (k v)…) (dataclass c t…) (namedtuple c t…) (iter t…)` -/
+partial def decTree : SExp → Option (Tree Nat)
+  | .list [.sym "coll", n] => do pure (.coll (← n.toNat?))
+  | .list [.sym "leaf", n] => do pure (.leaf (← n.toNat?))
+  | .list (.sym "list" :: xs) => do pure (.list (← xs.mapM decTree))
+  | .list (.sym "tuple" :: xs) => do pure (.tuple (← xs.mapM decTree))
+  | .list (.sym "set" :: xs) => do pure (.set (← xs.mapM decTree))
+  | .list (.sym "iter" :: xs) => do pure (.iter (← xs.mapM decTree))
+  | .list (.sym "dict" :: kvs) => do pure (.dict (← kvs.mapM decPair))
+  | .list (.sym "odict" :: kvs) => do pure (.odict (← kvs.mapM decPair))
+  | .list (.sym "dataclass" :: c :: xs) => do pure (.dataclass (← c.toNat?) (← xs.mapM decTree))
+  | .list (.sym "namedtuple" :: c :: xs) => do pure (.namedtuple (← c.toNat?) (← xs.mapM decTree))
+  | _ => none
+where
+  decPair : SExp → Option (Repack.Tree Nat × Repack.Tree Nat)
+    | .list [k, v] => do pure ((← decTree k), (← decTree v))
+    | _ => none
+
+open Dask.Repack in
+partial def encTree : Tree Nat → SExp
+  | .coll n => .list [.sym "coll", .int n]
+  | .leaf n => .list [.sym "leaf", .int n]
+  | .list xs => .list (.sym "list" :: xs.map encTree)
+  | .tuple xs => .list (.sym "tuple" :: xs.map encTree)
+  | .set xs => .list (.sym "set" :: xs.map encTree)
+  | .iter xs => .list (.sym "iter" :: xs.map encTree)
+  | .dict kvs => .list (.sym "dict" :: kvs.map (fun p => .list [encTree p.1, encTree p.2]))
+  | .odict kvs => .list (.sym "odict" :: kvs.map (fun p => .list [encTree p.1, encTree p.2]))
+  | .dataclass c xs => .list (.sym "dataclass" :: .int c :: xs.map encTree)
+  | .namedtuple c xs => .list (.sym "namedtuple" :: .int c :: xs.map encTree)
+
+/-- `(unpack (arg…) (result…))` ↦ `((collection tokens…) repacked)` where `repacked` is `repack(results)`
+    (`none` if a stored index is outside `results`); traverse=True -/
+def hUnpack : Handler := handler fun args =>
+  match args with
+  | [.list ts, rs] => do
+    let ts ← ts.mapM decTree
+    let rs ← rs.toNats?
+    let (colls, term) := Repack.unpackArgs ts
+    let out := match Repack.repack rs term with
+      | some t => encTree t
+      | none => .sym "none"
+    pure (.list [SExp.ofNats colls, out])
+  | _ => none
+
+/-- `(unpacktop (arg…) (result…))` ↦ `((collection tokens…) ((res r) | (same)…))`; traverse=False -/
+def hUnpackTop : Handler := handler fun args =>
+  match args with
+  | [.list ts, rs] => do
+    let ts ← ts.mapM decTree
+    let rs ← rs.toNats?
+    let (colls, marks) := Repack.unpackTop ts []
+    let out := match Repack.repackTop rs ts marks with
+      | some xs => SExp.list (xs.map (fun x => match x with
+          | .inl r => .list [.sym "res", .int r]
+          | .inr _ => .list [.sym "same"]))
+      | none => .sym "none"
+    pure (.list [SExp.ofNats colls, out])
+  | _ => none
+
+/-- `(tune ((optimizer key)…))` ↦ keys of the sequence after `_tune_down`, in `__dask_keys__` order
+    (`(k…)`, a missing slot is `none`); `(tuned true|false)` tells whether `_tune_down` changed anything -/
+def hTune : Handler := handler fun args =>
+  match args with
+  | [.list ops] => do
+    let ops ← ops.mapM (fun e => match e with
+      | .list [o, k] => do pure ((← o.toNat?), (← k.toNat?))
+      | _ => none)
+    let keys := Repack.keysAfterTune ops
+    pure (.list [.list (keys.map SExp.ofOptNat), SExp.ofBool (Repack.tuneDown ops).isSome])
+  | _ => none
+
 def table : List (String × Handler) :=
-  [("nodepre", hNodePre), ("nodeclass", hNodeClass), ("nodeeval", hNodeEval),
+  [("unpack", hUnpack), ("unpacktop", hUnpackTop), ("tune", hTune),
+   ("nodepre", hNodePre), ("nodeclass", hNodeClass), ("nodeeval", hNodeEval),
    ("tokpre", hTokPre), ("tokprekw", hTokPreKw), ("pyrepr", hPyRepr), ("pystr", hPyStr), ("logical", hLogical)]
 
 def main : IO Unit := runDriver table
